@@ -1100,7 +1100,7 @@ func explain(cls string) string {
 	case "trace":
 		return "a tracer submission did not carry exactly its collected lines, or was written with a repetition count (another line counted as its repetition)"
 	case "tracer-lost":
-		return "a context-tracer submission that had to be written never reached the adapter as a line of its own with its collected lines (swallowed as a repetition of another line, or dropped)"
+		return "a context-tracer submission that had to be written did not reach the adapter, in program order, as a line of its own with its collected lines (swallowed as a repetition of another line, dropped, or written out of order)"
 	case "quiesce-timeout":
 		return "enqueued lines were not handed to the adapter within 20 s although the writer was free to run (lost wake-up)"
 	case "shutdown-hang":
